@@ -813,7 +813,12 @@ impl rustc_driver::Callbacks for Cb {
             let dk = tcx.def_kind(did);
             if !matches!(
                 dk,
-                DefKind::Fn | DefKind::AssocFn | DefKind::Closure | DefKind::SyntheticCoroutineBody
+                DefKind::Fn
+                    | DefKind::AssocFn
+                    | DefKind::Closure
+                    | DefKind::SyntheticCoroutineBody
+                    | DefKind::Const { .. }
+                    | DefKind::AssocConst { .. }
             ) {
                 continue;
             }
@@ -883,7 +888,11 @@ impl rustc_driver::Callbacks for Cb {
                 continue;
             }
             let t = tcx.type_of(did).instantiate_identity().skip_norm_wip();
-            if !(t.is_integral() || t.is_bool()) {
+            let fieldless_enum = match t.kind() {
+                ty::Adt(ad, _) => ad.is_enum() && ad.is_payloadfree(),
+                _ => false,
+            };
+            if !(t.is_integral() || t.is_bool() || fieldless_enum) {
                 continue;
             }
             let r = std::panic::catch_unwind(std::panic::AssertUnwindSafe(|| {
@@ -897,6 +906,9 @@ impl rustc_driver::Callbacks for Cb {
                     } else {
                         format!("{}", si.to_uint(size))
                     };
+                    if let ty::Adt(ad, _) = t.kind() {
+                        cx.adts.insert(ad.did());
+                    }
                     let ts = pp!(t.to_string());
                     let _ = writeln!(
                         out,
